@@ -89,6 +89,9 @@ void pzgstrf_SetupSpace(void *work, int_t lwork)
         whichspace = SYSTEM; /* malloc/free */
     } else if ( lwork > 0 ) {
         whichspace = USER;   /* user provided space */
+        /* both ends of the stack serve int and real arrays: keep the
+           tail end aligned whatever length the caller passes */
+        lwork -= lwork % (int_t) sizeof(double);
         stack.size = lwork;
         stack.used = 0;
         stack.top1 = 0;
@@ -325,6 +328,12 @@ pzgstrf_MemInit(int_t n, int_t annz, superlumt_options_t *superlumt_options,
 	    xlusup_end = (int_t *)zuser_malloc((n) * iword, HEAD);
 	    xusub      = (int_t *)zuser_malloc((n+1) * iword, HEAD);
 	    xusub_end  = (int_t *)zuser_malloc((n) * iword, HEAD);
+	    if ( !xsup || !xsup_end || !supno || !xlsub || !xlsub_end ||
+		 !xlusup || !xlusup_end || !xusub || !xusub_end ) {
+		/* the caller's work space cannot even hold the pointer arrays */
+		printf("Not enough memory to perform factorization.\n");
+		return (pzgstrf_memory_use(nzlmax, nzumax, nzlumax) + n);
+	    }
 	}
 
 	lusup = (doublecomplex *) pzgstrf_expand( &nzlumax, LUSUP, 0, 0, Glu );
@@ -342,7 +351,13 @@ pzgstrf_MemInit(int_t n, int_t annz, superlumt_options_t *superlumt_options,
 		SUPERLU_FREE(lsub);
 		SUPERLU_FREE(usub);
 	    } else {
-		zuser_free(nzumax*dword+(nzlmax+nzumax)*iword, HEAD);
+		/* give back only what was actually obtained: a failed request
+		   left the stack untouched */
+		int_t got = 0;
+		if ( usub ) got += nzumax * iword;
+		if ( lsub ) got += nzlmax * iword;
+		if ( ucol ) got += nzumax * dword;
+		zuser_free(got, HEAD);
 	    }
 	    nzumax /= 2;    /* reduce request */
 	    nzlmax /= 2;
@@ -386,8 +401,8 @@ pzgstrf_MemInit(int_t n, int_t annz, superlumt_options_t *superlumt_options,
 	    whichspace = SYSTEM;
 	} else {
 	    whichspace = USER;
-	    stack.size = lwork;
-	    stack.top2 = lwork;
+	    stack.size = lwork - lwork % (int_t) sizeof(double);
+	    stack.top2 = stack.size;
 	    tail_users = 0;
 	}
 	
